@@ -131,6 +131,7 @@ def run(chk):
     )
     chk.not_decided = "boundary detection across chunk edges beyond the necessary condition C19.scan (first search on every path starts in the previous chunk), base64 quartet alignment, round-trip equality of contents."
     chk.explanation += " Also decided: on every path the first search for the part delimiter starts in the previous chunk no later than len(delimiter)-1 before its end; in base64 mode input reaches the wire only through the carry buffer. After the defect hunt: the _charset_ part is read like any part; sync and async part decoders both drain the decompressor; quoted-printable is encoded in binary mode."
+    chk.explanation += " Round 4 / second hunt: no fixed multi-byte token is compared with a possibly short read; read_chunk() takes readline()'s look-ahead first; client_max_size == 0 means no limit in every reader; parts decoded chunk by chunk keep decoder state. Known: text-mode file size (F130)."
     w = repo.cls(MP, "MultipartWriter")
     size = w.methods["size"]
     write = w.methods["write"]
